@@ -82,6 +82,10 @@ type echScn struct {
 	// single | two_usable (followed by another usable config with another key and config_id) |
 	// usable_skipped (followed by an entry of an unknown version and one with an unsupported KEM) | skipped_usable (preceded by those)
 	Shape string `json:"shape"`
+	// how the caller drives the UConn: plain (Handshake only) | build (BuildHandshakeState, then Handshake) |
+	// build2 (BuildHandshakeState twice, then Handshake) | build_random (BuildHandshakeState, SetClientRandom, then Handshake) |
+	// build_setsni (BuildHandshakeState, SetSNI(Config.ServerName), then Handshake)
+	Usage string `json:"usage"`
 }
 
 func marshalECHConfig(id uint8, pub []byte, publicName string, maxLen uint8, aead uint16) []byte {
@@ -283,8 +287,42 @@ func runECH(s *echScn, raw json.RawMessage, store *certStore) []map[string]any {
 	add(m)
 
 	ccfg := &tls.Config{ServerName: sname, RootCAs: store.pk.Pool, EncryptedClientHelloConfigList: list, MinVersion: uint16(s.MinVer)}
+	var prep func(uc *tls.UConn) error
+	switch s.Usage {
+	case "", "plain":
+	case "build":
+		prep = func(uc *tls.UConn) error { return uc.BuildHandshakeState() }
+	case "build2":
+		prep = func(uc *tls.UConn) error {
+			if err := uc.BuildHandshakeState(); err != nil {
+				return err
+			}
+			return uc.BuildHandshakeState()
+		}
+	case "build_random":
+		prep = func(uc *tls.UConn) error {
+			if err := uc.BuildHandshakeState(); err != nil {
+				return err
+			}
+			rnd := make([]byte, 32)
+			if _, err := rand.Read(rnd); err != nil {
+				return err
+			}
+			return uc.SetClientRandom(rnd)
+		}
+	case "build_setsni":
+		prep = func(uc *tls.UConn) error {
+			if err := uc.BuildHandshakeState(); err != nil {
+				return err
+			}
+			uc.SetSNI(sname)
+			return nil
+		}
+	default:
+		return fail(fmt.Errorf("unknown usage %q", s.Usage))
+	}
 	var pend []byte
-	r := hlib.RunHandshake(ccfg, scfg, id, hlib.HSOpts{Timeout: 8 * time.Second, Echo: []int{5},
+	r := hlib.RunHandshake(ccfg, scfg, id, hlib.HSOpts{Timeout: 8 * time.Second, Echo: []int{5}, Prep: prep,
 		OnClientWrite: func(b []byte) {
 			// the transport sees whole records; keep a tail just in case
 			pend = append(pend, b...)
